@@ -101,6 +101,9 @@ def run(rep):
             want = None if nn == "Z" else hx(ids[nn].encode())
             if s == "ok" and final.get(name) != want and nn != "D":
                 rep.fail("ok-but-not-updated", "local push: ref reported ok does not hold the requested value", case)
+    # the status report on the wire, against Model/ReportStatus.v
+    import corr_C06_report
+    corr_C06_report.run(rep)
 
 
 def replay(rep, body):
